@@ -290,7 +290,7 @@ func (ck *Check) sentinelAgreement(rule string) {
 				for _, op := range []ssa.Value{bo.X, bo.Y} {
 					if k, ok := op.(*ssa.Const); ok && k.Value != nil && strings.Contains(k.Value.String(), "e+308") {
 						n++
-						ck.cond(k.Value.ExactString() == sentinelVal && bo.Op == token.EQL, rule, fmt.Sprintf("%s/sentinel-test#%d", funcID(cf), n), ck.P.instrPos(bo), funcID(cf), "the consumer tests the same constant with ==", bo.String(), "producer and consumer of the from-zero sentinel disagree")
+						ck.cond(k.Value.ExactString() == sentinelVal && (bo.Op == token.EQL || bo.Op == token.NEQ), rule, fmt.Sprintf("%s/sentinel-test#%d", funcID(cf), n), ck.P.instrPos(bo), funcID(cf), "the consumer tests the same constant exactly (== or !=)", bo.String(), "producer and consumer of the from-zero sentinel disagree")
 					}
 				}
 			}
